@@ -80,7 +80,8 @@ class Associate(Block):
                 var_obj = find_in_scope(type_scope, var_stack[-1], obj_tree)
             else:
                 var_obj = find_in_scope(self, assoc.link_name, obj_tree)
-            if var_obj is not None:
+            # Do not link a name to itself or into a circular chain of links
+            if (var_obj is not None) and (not assoc.var.is_linked_from(var_obj)):
                 assoc.var.link_obj = var_obj
 
     def require_link(self):
